@@ -230,4 +230,52 @@ theorem groupsOK_of_goodGroups12 : ∀ (K : List (List Cmd)) (n : Nat), goodGrou
 #print axioms fromMs_moves_frag3
 #print axioms fromMs_sem_frag3
 
+/-! ## groups taken from different fragments -/
+
+theorem groupsOK_of_goodGroups13 : ∀ (K : List (List Cmd)) (n : Nat), goodGroups13 n K = true → groupsOK n K := by
+  intro K
+  induction K with
+  | nil => intro _ _; trivial
+  | cons g rest ih =>
+    intro n h
+    simp only [goodGroups13, Bool.and_eq_true, Bool.or_eq_true] at h
+    refine ⟨?_, ih _ h.2⟩
+    rcases h.1 with h1 | h1
+    · exact groupOK_of_good12 h1
+    · exact groupOK_of_good3 h1
+
+/-- **C08 when every time group lies in one of the fragments `GoodGroup12`, `GoodGroup3`** -/
+theorem fromMs_sem_frag13 {c : List String} {N0 : Q} {mg : MsGraph} {sem : DemogSem} {pr : Parsed}
+    (h : fromMs c N0 none = .ok mg) (hsem : msSem c N0 = .ok sem) (hp : parsersAgree c = true)
+    (hpr : parse c = .ok pr) (ht : Tame13 pr = true) :
+    SemAgree (msSem c N0) (resultSem mg) = true := by
+  obtain ⟨gsem, hg, hm⟩ := fromMs_moves_ok h hsem hp hpr (groupsOK_of_goodGroups13 _ _ ht)
+  obtain ⟨rs, hrs, hsm⟩ := fromMs_sizes_migs_sem_total h hsem hp
+  rw [hg] at hrs
+  cases hrs
+  rw [hsem, hg]
+  show semEquiv sem gsem = true
+  rw [semEquiv_split, hsm, hm]
+  simp
+
+theorem tame13_of_tame3 : ∀ (K : List (List Cmd)) (n : Nat), goodGroups3 n K = true → goodGroups13 n K = true := by
+  intro K
+  induction K with
+  | nil => intro _ _; rfl
+  | cons g rest ih =>
+    intro n h
+    simp only [goodGroups3, Bool.and_eq_true] at h
+    simp only [goodGroups13, Bool.and_eq_true, Bool.or_eq_true]
+    exact ⟨Or.inr h.1, ih _ h.2⟩
+
+theorem tame13_of_tame12 : ∀ (K : List (List Cmd)) (n : Nat), goodGroups12 n K = true → goodGroups13 n K = true := by
+  intro K
+  induction K with
+  | nil => intro _ _; rfl
+  | cons g rest ih =>
+    intro n h
+    simp only [goodGroups12, Bool.and_eq_true] at h
+    simp only [goodGroups13, Bool.and_eq_true, Bool.or_eq_true]
+    exact ⟨Or.inl h.1, ih _ h.2⟩
+
 end Demes.Proofs.FromMs
